@@ -161,6 +161,109 @@ def timed_script(rnd, sid):
     return sc
 
 
+def many_outstanding_script(rnd, sid, n):
+    """n requests are outstanding and stay unanswered (the peer reads each of them) while keep-alives arrive: every one
+    must be acknowledged, whatever n is; some replies later, more keep-alives."""
+    version = rnd.choice([1, 2])
+    b = cc.SB(sid, version=version)
+    cur = rnd.choice([1, 2])
+    b.connect(cur=cur, mx=2)
+    tag = rnd.randrange(1, 1 << 20) * 4096
+    callers = []
+    for c in range(1, n + 1):
+        b.send(c, rnd.choice(REQ_TYPES), rnd.choice([0, 1, 17]), tag + c)
+        callers.append(c)
+        if c in (n // 2, n - 1):                     # also while the number is still growing
+            b.keepalive(rnd.choice([0, c, 4294967295]))
+            b.expect()
+    for k in range(4):
+        b.keepalive(rnd.choice([0, 5 + k, n, 4294967295]))
+        b.expect()
+    for c in rnd.sample(callers, min(3, len(callers))):
+        b.reply_to(c, 1023, rnd.choice([0, 9]), tag + 2048 + c)
+        b.wait(c)
+        b.keepalive(1000 + c)
+        b.expect()
+    b.op("drain")
+    b.op("state")
+    sc = b.script()
+    sc["family"] = "many-outstanding"
+    return sc
+
+
+def overflow_drain_script(rnd, sid, bursts):
+    """liveness after an overflow of the acknowledgement backlog: a burst of keep-alives while the peer does not read
+    (>= 7: one in the write loop's hand, five queued, the rest dropped), then the peer reads everything, then further
+    keep-alives each of which must be acknowledged again; repeated."""
+    version = rnd.choice([1, 2])
+    b = cc.SB(sid, version=version)
+    b.connect(cur=rnd.choice([1, 2]), mx=2)
+    tag = rnd.randrange(1, 1 << 20) * 4096
+    nc = 0
+    if rnd.random() < 0.5:
+        nc += 1
+        b.send(nc, rnd.choice(REQ_TYPES), 3, tag + nc)
+    kid = 100
+    for n in bursts:
+        for _ in range(n):
+            kid += 1
+            b.keepalive(kid)
+        b.op("drain")                                  # the peer resumes reading: the backlog drains
+        for _ in range(rnd.randrange(2, 5)):
+            kid += 1
+            b.keepalive(kid)
+            b.expect()
+        if rnd.random() < 0.5:
+            nc += 1
+            b.send(nc, rnd.choice(REQ_TYPES), 3, tag + nc)
+    b.op("drain")
+    b.op("state")
+    sc = b.script()
+    sc["family"] = "overflow-drain"
+    return sc
+
+
+def oversize_reply_script(rnd, sid, n):
+    """a reply larger than MaxBufferedPayloadSz to an outstanding request, followed by keep-alives and another
+    request/reply: the stream must still be parsed frame by frame (every keep-alive acknowledged, the later request
+    answered)."""
+    version = rnd.choice([1, 2])
+    b = cc.SB(sid, version=version)
+    b.connect(cur=rnd.choice([1, 2]), mx=2)
+    tag = rnd.randrange(1, 1 << 20) * 4096
+    b.send(1, rnd.choice(REQ_TYPES), 2, tag + 1)
+    if rnd.random() < 0.5:
+        b.send(2, rnd.choice(REQ_TYPES), 0, 0)
+    b.reply_to(1, 1023, n, tag + 9)
+    b.wait(1)
+    b.keepalive(7)
+    b.expect()
+    b.send(3, rnd.choice(REQ_TYPES), 4, tag + 3)
+    b.keepalive(8)
+    b.expect()
+    b.reply_to(3, 1023, 6, tag + 10)
+    b.wait(3)
+    b.keepalive(9)
+    b.expect()
+    b.op("drain")
+    b.op("state")
+    sc = b.script()
+    sc["family"] = "oversize-reply"
+    return sc
+
+
+def class_scripts(seed, thorough):
+    rnd = random.Random(seed + 29)
+    out = []
+    for i, n in enumerate((1, 8, 33, 100) + ((300, 1000) if thorough else ())):
+        out.append(many_outstanding_script(rnd, "c07-many-%d" % n, n))
+    for i, bursts in enumerate([(7,), (8, 7), (20, 7, 12)] + ([(7, 7, 7, 7), (60, 9), (6, 7, 8)] if thorough else [])):
+        out.append(overflow_drain_script(rnd, "c07-overflow-%d" % i, bursts))
+    for i, n in enumerate((655361,) + ((655360, 700000, 1500000) if thorough else ())):
+        out.append(oversize_reply_script(rnd, "c07-oversize-%d" % n, n))
+    return out
+
+
 FAMILIES = ["outstanding", "burst", "negotiation", "mixed", "burst"]
 
 
@@ -191,7 +294,7 @@ def run(tier, seed, replay=None):
         if scripts and scripts[0].get("family") in ("splitcancel", "timed"):
             scripts_pred, scripts = scripts, []
     else:
-        scripts = gen_scripts(seed, 3000 if thorough else 500)
+        scripts = class_scripts(seed, thorough) + gen_scripts(seed, 3000 if thorough else 500)
     def view_of(sc, g):
         v = cc.go_view(sc, g)
         v["order"], v["drained"] = cc.c07_order(sc, g)
